@@ -10,6 +10,9 @@ def showRes : Res → String
     path / spare capacity in the harness; the result must not depend on them) -/
 def handle1 (line : String) : String :=
   let o := parseOp line
+  if o.cmd == "api" then   -- constants and accessors of both AEADs
+    s!"KeySize={keySize} NonceSize={nonceSize} NonceSizeX={nonceSizeX} Overhead={overhead} aead.NonceSize={nonceSize} aead.Overhead={overhead} xaead.NonceSize={nonceSizeX} xaead.Overhead={overhead}"
+  else
   match o.nat? "x", o.hex? "key", o.hex? "nonce", o.hex? "ad", o.hex? "dst" with
   | some x, some key, some nonce, some ad, some dst =>
     if x > 1 then "bad-op" else
